@@ -1,7 +1,159 @@
+import MesonModel.Options.Model
 import Driver.Proto
-/- driver commands of area `options` (stub until the area is built) -/
-namespace Driver.Options
+/-
+Driver commands of area `options` (C07/C08).  One request line is one whole scenario:
 
-def handle (cmd : String) (fs : List String) : String := "bad-op"
+  run <cross>|<probe keys>|<op>|<op>|...        → per op `res#values#augments#pending#pendingSub#subprojects#objects`
+  val <kind>|<val>                               → `validate`
+  sp <str>            sd <prefix>|<key>|<val>    → `sanitize_prefix`, `sanitize_dir_option_value`
+  rc <dict>                                      → `parse_cmd_line_options` re-ordering
+
+Encoding (see harness/c07.py): strings are space separated code points; key `name:N|S<sub>:h|b`;
+value `s<str>` `i<int>` `b0|b1` `a~item~item`; dict `key=val,key=val`; object spec `kind/default/y/r`.
+-/
+namespace Driver.Options
+open MesonModel.Options Driver
+
+def splitOn1 (s : String) (sep : String) : List String := s.splitOn sep
+
+def parseInt (s : String) : Int :=
+  if s.startsWith "-" then - (Int.ofNat ((s.drop 1).toString.toNat?.getD 0)) else Int.ofNat (s.toNat?.getD 0)
+
+def parseKey (f : String) : Key :=
+  match f.splitOn ":" with
+  | [n, sb, m] =>
+    { name := decodeStr n,
+      sub := if sb.startsWith "S" then some (decodeStr (sb.drop 1).toString) else none,
+      machine := if m == "b" then .build else .host }
+  | _ => default
+
+def parseVal (f : String) : Val :=
+  if f.startsWith "s" then .str (decodeStr (f.drop 1).toString)
+  else if f.startsWith "i" then .int (parseInt (f.drop 1).toString)
+  else if f.startsWith "b" then .bool (f == "b1")
+  else if f.startsWith "a" then .arr (((f.splitOn "~").drop 1).map decodeStr)
+  else default
+
+def parseDict (f : String) : Dict :=
+  if f.isEmpty then [] else
+  (f.splitOn ",").map (fun e => match e.splitOn "=" with
+    | [k, v] => (parseKey k, parseVal v)
+    | _ => default)
+
+def parseOptDict (f : String) : List (Key × Option Val) :=
+  if f.isEmpty then [] else
+  (f.splitOn ",").map (fun e => match e.splitOn "=" with
+    | [k, v] => (parseKey k, if v == "-" then none else some (parseVal v))
+    | _ => default)
+
+def parseOptInt (s : String) : Option Int := if s == "n" then none else some (parseInt s)
+
+def parseKind (f : String) : Kind :=
+  if f == "S" then .string
+  else if f == "B" then .boolean
+  else if f == "U" then .umask
+  else if f == "F" then .feature
+  else if f == "An" then .array none
+  else if f.startsWith "A" then .array (some (((f.splitOn "~").drop 1).map decodeStr))
+  else if f.startsWith "C" then .combo (((f.splitOn "~").drop 1).map decodeStr)
+  else if f.startsWith "I" then
+    match ((f.drop 1).toString).splitOn "_" with
+    | [a, b] => .integer (parseOptInt a) (parseOptInt b)
+    | _ => .integer none none
+  else .string
+
+def parseSpec (f : String) : ObjSpec :=
+  match f.splitOn "/" with
+  | [k, d, y, r] => { kind := parseKind k, default := parseVal d, yielding := y == "1", readonly := r == "1" }
+  | _ => default
+
+def parseSpecs (f : String) : List (Key × ObjSpec) :=
+  if f.isEmpty then [] else
+  (f.splitOn ",").map (fun e => match e.splitOn "=" with
+    | [k, v] => (parseKey k, parseSpec v)
+    | _ => default)
+
+def parseOp (f : String) : Option Op :=
+  match f.splitOn ";" with
+  | ["as", k, sp] => some (.addSystem (parseKey k) (parseSpec sp))
+  | ["ap", k, sp] => some (.addProject (parseKey k) (parseSpec sp))
+  | ["ib"] => some .initBuiltins
+  | ["so", k, v, fi] => some (.setOption (parseKey k) (parseVal v) (fi == "1"))
+  | ["su", k, v, fi] => some (.setUser (parseKey k) (parseVal v) (fi == "1"))
+  | ["it", pdo, cmd, mf] => some (.initTop (parseDict pdo) (parseDict cmd) (parseDict mf))
+  | ["is", sub, sc, pdo, cmd, mf] =>
+    some (.initSub (decodeStr sub) (parseDict sc) (parseDict pdo) (parseDict cmd) (parseDict mf))
+  | ["cf", args] => some (.configure (parseOptDict args))
+  | ["up", sub, specs] => some (.updateProject (decodeStr sub) (parseSpecs specs))
+  | _ => none
+
+def showKey (k : Key) : String :=
+  encodeStr k.name ++ ":" ++ (match k.sub with | none => "N" | some s => "S" ++ encodeStr s) ++ ":" ++
+    (match k.machine with | .host => "h" | .build => "b")
+
+def showVal : Val → String
+  | .str s => "s" ++ encodeStr s
+  | .int n => "i" ++ toString n
+  | .bool b => if b then "b1" else "b0"
+  | .arr l => "a" ++ String.join (l.map (fun x => "~" ++ encodeStr x))
+
+def showErr : Err → String
+  | .meson => "MesonException"
+  | .key => "KeyError"
+  | .assertion => "AssertionError"
+  | .bug => "MesonBugException"
+  | .attribute => "AttributeError"
+  | .unsupported => "UNSUPPORTED"
+
+def showRes {α : Type} (f : α → String) : Except Err α → String
+  | .ok a => f a
+  | .error e => "!" ++ showErr e
+
+def insertSorted (x : String) : List String → List String
+  | [] => [x]
+  | y :: r => if x < y then x :: y :: r else y :: insertSorted x r
+
+def sortStrs (l : List String) : List String := l.foldr insertSorted []
+
+def showDict (d : Dict) : String :=
+  ",".intercalate (sortStrs (d.map (fun p => showKey p.1 ++ "=" ++ showVal p.2)))
+
+def showObjects (s : Store) : String :=
+  ",".intercalate (sortStrs (s.options.map (fun p =>
+    match s.heap[p.2]? with
+    | some o => showKey p.1 ++ "=" ++ showVal o.value ++ "^" ++ boolStr o.yielding ++ "^" ++ boolStr o.parent.isSome ++
+        "^" ++ boolStr (s.isProjectOption p.1) ++ "^" ++ boolStr (s.moduleOptions.contains p.1)
+    | none => showKey p.1 ++ "=?")))
+
+def showState (s : Store) (probes : List Key) : String :=
+  ",".intercalate (probes.map (fun k => showRes showVal (getValueFor s k))) ++ "#" ++
+  showDict s.augments ++ "#" ++ showDict s.pending ++ "#" ++ showDict s.pendingSub ++ "#" ++
+  ",".intercalate (sortStrs (s.subprojects.map encodeStr)) ++ "#" ++ showObjects s
+
+def showOut : Out → String
+  | .none => "ok"
+  | .bool b => "ok:" ++ boolStr b
+
+def runOps (probes : List Key) : Store → List String → List String
+  | _, [] => []
+  | s, f :: r =>
+    match parseOp f with
+    | none => ["bad-op"]
+    | some op =>
+      let (res, s') := applyOp op s
+      (showRes showOut res ++ "#" ++ showState s' probes) :: runOps probes s' r
+
+def handle (cmd : String) (fs : List String) : String :=
+  match cmd, fs with
+  | "run", cross :: probes :: ops =>
+    let pk := if probes.isEmpty then [] else (probes.splitOn ",").map parseKey
+    "|".intercalate (runOps pk (Store.new (cross == "1")) ops)
+  | "val", [k, v] => showRes showVal (validate (parseKind k) (parseVal v))
+  | "sp", [p] => showRes (fun s => "s" ++ encodeStr s) (sanitizePrefix (decodeStr p))
+  | "sd", [p, k, v] => showRes showVal (sanitizeDirValue (decodeStr p) (parseKey k) (parseVal v))
+  | "rc", [d] =>
+    -- order matters here: do not sort
+    ",".intercalate ((reorderCmd (parseDict d)).map (fun p => showKey p.1 ++ "=" ++ showVal p.2))
+  | _, _ => "bad-op"
 
 end Driver.Options
